@@ -900,7 +900,7 @@ static void req_case(Run &r, Ctx &x, int idlen)
 	++r.transitions;
 	const char *grp = sync ? "sync" : "connreq";
 	r.hint(grp);
-	std::string out = in_child([&]() { return req_child(idlen, sync, letters, rereg); }, 4);
+	std::string out = in_child([&]() { return req_child(idlen, sync, letters, rereg); }, 2);
 	r.note("deliveries: %s", out.c_str());
 	if (out == "setup-failed") { r.incomplete("requester setup failed"); return; }
 	if (!out.empty() && out[0] == '\x01') { r.violation(std::string(grp) + "|" + (out == "\x01HANG" ? "HANG" : (out.compare(1, 3, "SIG") == 0 ? "SIGNAL" : "EXIT")), desc + " child ended with " + out.substr(1)); return; }
